@@ -3,3 +3,4 @@ From Coq Require Import String List Bool.
 From V9 Require Import Gen.Shape Shape.ShapeLib.
 
 Lemma client_failure_order_ok : client_failure_order = true.      Proof. vm_compute. reflexivity. Qed.
+Lemma client_failure_paths_ok : client_failure_paths = true.        Proof. vm_compute. reflexivity. Qed.
